@@ -56,7 +56,7 @@ fn rd(name: &str, flags: u16, ref_id: Option<usize>, pos: Option<usize>, cigar: 
     }
 }
 
-const DET: &[&str] = &["det:two-references-in-one-slice", "det:overlapping-coordinates-on-two-references", "det:mapped-then-unplaced-in-one-slice", "det:single-reference-two-containers"];
+const DET: &[&str] = &["det:slice-of-more-than-2-MiB-then-more-containers", "det:two-references-in-one-slice", "det:overlapping-coordinates-on-two-references", "det:mapped-then-unplaced-in-one-slice", "det:single-reference-two-containers"];
 
 fn det_stream(name: &str) -> (Stream, usize) {
     let refs = vec![
@@ -90,6 +90,30 @@ fn det_stream(name: &str) -> (Stream, usize) {
             ],
             5,
         ),
+        // slice length and the offsets of the following containers >= 2^21 (ITF8/size arithmetic of
+        // the writer and of the indexer on real sizes): a read with a 2.2 Mb soft clip, sorted first
+        "det:slice-of-more-than-2-MiB-then-more-containers" => {
+            let mut rng = Rng::new(0xB16, 0xC19, 0);
+            let n = 2_200_000usize;
+            let mut raw = vec![0u8; n];
+            rng.fill(&mut raw);
+            let mut bases: Vec<u8> = raw.iter().map(|b| b"ACGT"[(b & 3) as usize]).collect();
+            bases.extend_from_slice(b"ACGTACGT");
+            let mut big = rd("big", 0, Some(0), Some(1), &[('S', n), ('M', 8)], &bases);
+            rng.fill(&mut raw);
+            big.quals = raw.iter().map(|b| b % 94).chain([30u8; 8]).collect();
+            (
+                vec![
+                    big,
+                    rd("a1", 0, Some(0), Some(5), &[('M', 8)], b"ACGTTTGA"),
+                    rd("a2", 0, Some(0), Some(9), &[('M', 8)], b"TTGACCAG"),
+                    rd("a3", 0, Some(0), Some(21), &[('M', 8)], b"CGGATCAG"),
+                    rd("b0", 0, Some(1), Some(3), &[('M', 8)], b"GACGATCG"),
+                    rd("u0", gencram::F_UNMAPPED, None, None, &[], b"GGGGTTTT"),
+                ],
+                2,
+            )
+        }
         "det:single-reference-two-containers" => (
             vec![
                 rd("a0", 0, Some(0), Some(1), &[('M', 8)], b"ACGTACGT"),
@@ -104,7 +128,7 @@ fn det_stream(name: &str) -> (Stream, usize) {
     for (i, r) in reads.iter_mut().enumerate() {
         r.template = i;
     }
-    (Stream { refs, read_groups: vec![], reads }, rps)
+    (Stream { refs, read_groups: vec![], reads, declared_lengths: None }, rps)
 }
 
 fn gen_cases(ctx: &Ctx) -> Vec<Case> {
@@ -240,6 +264,19 @@ fn gen_regions(rng: &mut Rng, s: &Stream, n: usize) -> Vec<Reg> {
     // whole references (by name only), incl. references without records
     for i in 0..s.refs.len() {
         out.push(Reg { ref_id: i, start: None, end: None, kind: "whole-reference" });
+    }
+    // regions around placed unmapped reads: at POS, just right of it, at the last base it would
+    // cover if it were aligned, and from there on
+    let placed: Vec<&ReadDesc> = s.reads.iter().filter(|r| r.is_unmapped() && r.pos.is_some() && r.ref_id.is_some()).collect();
+    for _ in 0..(n / 6).min(2 * placed.len()) {
+        let r = *rng.pick(&placed);
+        let (rid, p, l) = (r.ref_id.unwrap(), r.pos.unwrap(), r.bases.len().max(1));
+        out.push(match rng.below(4) {
+            0 => Reg { ref_id: rid, start: Some(p), end: Some(p), kind: "placed-unmapped:at-pos" },
+            1 => Reg { ref_id: rid, start: Some(p + 1), end: Some(p + 1), kind: "placed-unmapped:right-of-pos" },
+            2 => Reg { ref_id: rid, start: Some(p + l - 1 + usize::from(l == 1)), end: Some(p + l + 3), kind: "placed-unmapped:at-last-base-of-read-length" },
+            _ => Reg { ref_id: rid, start: Some(p + 1), end: None, kind: "placed-unmapped:from-right-of-pos-on" },
+        });
     }
     while out.len() < n {
         let k = rng.below(12);
@@ -459,13 +496,22 @@ fn run_queries(
         if limit.is_some() {
             o.count("queries_consumed_partially", 1);
         }
-        // placed unmapped records have no alignment: whether a region "intersects" them is not
-        // defined by the statement; they are tolerated either way
+        // A placed unmapped record has no alignment: whether a region at its position returns it
+        // is not defined by the statement (SAM tools treat it as one base at POS; noodles gives it
+        // the empty interval POS..POS-1), so it is tolerated either way — but only where one of the
+        // two readings puts it: on its own reference and in a region that touches [POS-1, POS].
         let filter = |o: &mut CaseOut, v: &[RecordBuf]| -> Vec<(Vec<u8>, u16)> {
             v.iter()
                 .map(key_of_buf)
                 .filter(|k| {
-                    let placed_unmapped = by_key.get(k).map(|r| r.is_unmapped() && r.pos.is_some()).unwrap_or(false);
+                    let placed_unmapped = by_key
+                        .get(k)
+                        .map(|r| {
+                            r.is_unmapped()
+                                && r.ref_id == Some(g.ref_id)
+                                && r.pos.map(|p| g.start.map(|a| a <= p).unwrap_or(true) && g.end.map(|b| b + 1 >= p).unwrap_or(true)).unwrap_or(false)
+                        })
+                        .unwrap_or(false);
                     if placed_unmapped {
                         o.count("placed_unmapped_records_returned_by_queries (tolerated)", 1);
                     }
@@ -520,6 +566,11 @@ fn run_queries(
                 explained = true;
                 match by_key.get(k) {
                     None => push(o, "query:returns-unknown-record".into(), format!("record {:?} was never written; {ctx_desc}", name(k))),
+                    Some(r) if r.is_unmapped() && r.ref_id == Some(g.ref_id) => push(
+                        o,
+                        "query:returns-placed-unmapped-record-away-from-its-position".into(),
+                        format!("placed unmapped record {:?} at POS {:?} ({} bases); {ctx_desc}", name(k), r.pos, r.bases.len()),
+                    ),
                     Some(r) if r.ref_id != Some(g.ref_id) => push(
                         o,
                         format!("query:returns-record-of-other-reference:{layout}"),
